@@ -305,7 +305,10 @@ fn parse_election_command(command: &mut std::str::SplitN<&str>) -> Result<Reques
             };
             let mut rest = rest.splitn(2, " ");
             let process_id = match rest.next() {
-                Some(id) => id.parse::<u128>().unwrap(),
+                Some(id) => match id.parse::<u128>() {
+                    Ok(id) => id,
+                    Err(_) => return Err(format!("Invalid process id")),
+                },
                 None => return Err(format!("replicate-snapshot must contain a db name")),
             };
             let node_name = match rest.next() {
